@@ -20,8 +20,8 @@ RULE = (
     "IdealReservoir or SinglePhaseReservoir (tables / pressure pairs as C01, nx 3..40, 3..120 strictly increasing "
     "times), a stride 'every' in 1..nt+5, both rescale and tick settings, with and without a supplied Axes; "
     "'comparison' cases: plot_production_comparison for a generated production table (zero-rate days, missing "
-    "pressures), tau, M, p_initial, both filter settings and window sizes; 'transform' cases: non-negative arrays "
-    "spanning 1e-300..1e300 (and 0) through the square-root transform, its inverse and back. Non-trivial = a "
+    "pressures), tau, M, p_initial, frac-face pressures down to ~12 psi, every pressure in psi / MPa / bar / Pa, both filter settings and window sizes; 'transform' cases: non-negative arrays "
+    "spanning 1e-300..1e300 (and 0) through the square-root transform, its inverse and back - through Transform.transform, through transform_non_affine (the route of matplotlib composite transforms) and data -> display -> data on a real Axes. Non-trivial = a "
     "reservoir case with >= 2 drawn profiles, any comparison case, a transform array with >= 2 distinct positive "
     "magnitudes. Distinct = hash of the case record."
 )
